@@ -923,13 +923,18 @@ def run(ctx):
     ctx.coverage.update(bound_completed=f'depth {b["depth"]}, <= {b["budget"]} non-default script entries '
                         f'(module: depth {b["mdepth"]}, <= {b["mbudget"]})',
                         profiles=list(PROFILES))
-    ctx.assume('sequential part only: start/stop/cycle are never concurrent here (see the concurrent sub-check)',
+    from vf.harness import c14conc
+    c14conc.run_conc(ctx)       # start / stop from a second thread between any two steps of a cycle (schedx)
+    ctx.assume('sequential sub-checks: start/stop/cycle are never concurrent there (the concurrent sub-check covers that)',
                'state functions are plain functions with a __name__; exceptions are Exception subclasses',
                'module part: state functions carry busy status codes (BUSY / FINALIZING) or none',
                'no transition hook in the bare state machine part (the module part uses HasStates.state_transition)')
 
 
 def replay(case):
+    if case.get('kind') == 'conc':
+        from vf.harness import c14conc
+        return c14conc.replay_conc(case)
     part = core.Part()
     sub = case.get('sub', 'sm')
     shard = dict(profile=case['profile'], maxloops=case['maxloops'])
